@@ -553,6 +553,64 @@ func c29SBCase(c *Ctx, r *Rand) {
 		}
 	}
 	c.Case(line, res, "tie:sb", fmt.Sprintf("sb:split=%v", res))
+
+	// bs: the same word through SplitBraces + bracesSeqRec (expand.Braces is its eager wrapper)
+	if pn != "" || !c29SmallSeqs(toks) {
+		return
+	}
+	word2 := *orig
+	var words []*syntax.Word
+	pn2 := safely(func() {
+		if syntax.SplitBraces(&word2) {
+			words = expand.Braces(&word2)
+		} else {
+			words = []*syntax.Word{&word2}
+		}
+	})
+	if len(words) > 400 {
+		return
+	}
+	ans2 := "panic"
+	if pn2 == "" {
+		var rs []string
+		for _, w := range words {
+			rs = append(rs, c29RenderWord(w, others))
+		}
+		same := unsafe.SliceData(orig.Parts) == hdrData && len(orig.Parts) == hdrLen && cap(orig.Parts) == hdrCap
+		for i := range full {
+			if full[i] != before[i] {
+				same = false
+			}
+		}
+		ans2 = strings.Join(rs, " ") + " orig=" + map[bool]string{true: "same", false: "changed"}[same]
+		if !same {
+			c.Fail("bs"+line[2:], "SplitBraces + Braces on a copied Word header changed the original header or its backing array")
+		}
+	}
+	c.Op("bs"+line[2:], ans2)
+	c.Case("bs"+line[2:], len(words) > 1, "tie:bs", fmt.Sprintf("bs:words<%d", bucket(len(words))))
+}
+
+// c29SmallSeqs: every run of digits in the literal parts is at most two digits long, so that a
+// sequence expression stays small.
+func c29SmallSeqs(toks []string) bool {
+	for _, t := range toks {
+		if !strings.HasPrefix(t, "l") {
+			continue
+		}
+		run := 0
+		for _, b := range []byte(unhx(t[1:])) {
+			if b >= '0' && b <= '9' {
+				run++
+				if run > 2 {
+					return false
+				}
+			} else {
+				run = 0
+			}
+		}
+	}
+	return true
 }
 
 // ---- alias ---------------------------------------------------------------------------------------
